@@ -301,6 +301,7 @@ func c10Globals(c *Ctx, p *core.Prog, fns []*ssa.Function, la *lockAnalysis) {
 	r := c.R
 	// functions that run only inside sync.Once.Do
 	onceFns := map[*ssa.Function]bool{}
+	onceOf := map[*ssa.Function]map[string]bool{} // once function -> names of the Once objects it runs under
 	for _, fn := range fns {
 		for _, b := range fn.Blocks {
 			for _, in := range b.Instrs {
@@ -320,9 +321,17 @@ func c10Globals(c *Ctx, p *core.Prog, fns []*ssa.Function, la *lockAnalysis) {
 					case *ssa.MakeClosure:
 						if cl, _ := a.Fn.(*ssa.Function); cl != nil {
 							onceFns[cl] = true
+							if onceOf[cl] == nil {
+								onceOf[cl] = map[string]bool{}
+							}
+							onceOf[cl][onceDoName(&call.Call)] = true
 						}
 					case *ssa.Function:
 						onceFns[a] = true
+						if onceOf[a] == nil {
+							onceOf[a] = map[string]bool{}
+						}
+						onceOf[a][onceDoName(&call.Call)] = true
 					}
 				}
 			}
@@ -348,6 +357,12 @@ func c10Globals(c *Ctx, p *core.Prog, fns []*ssa.Function, la *lockAnalysis) {
 			if all {
 				onceFns[fn] = true
 				changed = true
+				onceOf[fn] = map[string]bool{}
+				for _, e := range node.In {
+					for k := range onceOf[e.Caller.Func] {
+						onceOf[fn][k] = true
+					}
+				}
 			}
 		}
 	}
@@ -409,6 +424,7 @@ func c10Globals(c *Ctx, p *core.Prog, fns []*ssa.Function, la *lockAnalysis) {
 		}
 	}
 	n := 0
+	var oa *onceAnalysis
 	for _, g := range globals {
 		n++
 		name := shortPkg(g.Pkg.Pkg.Path()) + "." + g.Name()
@@ -446,6 +462,42 @@ func c10Globals(c *Ctx, p *core.Prog, fns []*ssa.Function, la *lockAnalysis) {
 					onceOnly = false
 				}
 			}
+			if onceOnly {
+				// initialised under sync.Once: every read outside the Once function must come after a Do of
+				// (one of) the guarding Once objects has certainly returned
+				guards := map[string]bool{}
+				for _, w := range ws {
+					for k := range onceOf[w.fn] {
+						guards[k] = true
+					}
+				}
+				if oa == nil {
+					oa = newOnceAnalysis(p, fns)
+				}
+				for _, fn := range fns {
+					if fn.Name() == "init" || onceFns[fn] {
+						continue
+					}
+					for _, b := range fn.Blocks {
+						for _, in := range b.Instrs {
+							u, ok := in.(*ssa.UnOp)
+							if !ok || u.Op != token.MUL || u.X != ssa.Value(g) {
+								continue
+							}
+							done := oa.at(fn, in)
+							okR := false
+							for k := range guards {
+								if _, ok := done[k]; ok {
+									okR = true
+								}
+							}
+							if !okR {
+								bad = append(bad, "read in "+core.FnName(fn)+" at "+p.Pos(in.Pos())+" before the sync.Once that initialises it has certainly run (a reader can see the variable half-built while another goroutine is inside Do)")
+							}
+						}
+					}
+				}
+			}
 			if !onceOnly {
 				for _, fn := range fns {
 					if fn.Name() == "init" {
@@ -467,7 +519,7 @@ func c10Globals(c *Ctx, p *core.Prog, fns []*ssa.Function, la *lockAnalysis) {
 			if len(bad) == 0 {
 				r.OK("global", name, p.Pos(g.Pos()), sprintf("%d writes, all under sync.Once or a write lock; reads under a lock", len(ws)))
 			} else {
-				r.Violate("global", name, p.Pos(g.Pos()), "package-level variable written without synchronisation by "+strings.Join(bad, "; "))
+				r.Violate("global", name, p.Pos(g.Pos()), "package-level variable accessed without synchronisation: "+strings.Join(bad, "; "))
 			}
 		}
 	}
